@@ -6,8 +6,8 @@ git -C /repo worktree add -q --detach $scratch HEAD || exit 2
 (cd $scratch && git apply -3 /verif/seeded/$id/patch.diff >/dev/null 2>&1 && git reset -q)
 cd /verif
 if [ -n "$only" ]; then
-  VERIF_REPO=$scratch timeout 1500 ./bin/vcheck run --property $prop --tier $tier --only "$only" --no-evidence 2>&1 | grep "^VIOLATION\|^  obligation\|^INCONCLUSIVE\|exit=" | cut -c1-280
+  VERIF_REPO=$scratch timeout 1500 ${VCHECK:-./bin/vcheck} run --property $prop --tier $tier --only "$only" --no-evidence 2>&1 | grep "^VIOLATION\|^  obligation\|^INCONCLUSIVE\|exit=" | cut -c1-280
 else
-  VERIF_REPO=$scratch timeout 1500 ./bin/vcheck run --property $prop --tier $tier --no-evidence 2>&1 | grep "^VIOLATION\|^  obligation\|^INCONCLUSIVE\|exit=" | cut -c1-280
+  VERIF_REPO=$scratch timeout 1500 ${VCHECK:-./bin/vcheck} run --property $prop --tier $tier --no-evidence 2>&1 | grep "^VIOLATION\|^  obligation\|^INCONCLUSIVE\|exit=" | cut -c1-280
 fi
 git -C /repo worktree remove --force $scratch
